@@ -324,6 +324,32 @@ STORED_HIST = [
 ]
 
 
+def saturated_histories(mir):
+    """fixed, both tiers: the warning counter must only silence the message.  For a NeuroMLDocument and a Network with four list
+    members of three components each: 0, 9, 10, 11, 25 look ups of ids that do not exist, then every component of every list is
+    looked up (first, middle, last) - each must be found whatever the counter says."""
+    cases = []
+    for cls in ("NeuroMLDocument", "Network"):
+        if cls not in mir.C:
+            continue
+        own = [m for m in mir.C[cls]["mspecs"] if m["container"] and isinstance(m["type"], str) and m["type"] in mir.C
+               and "id" in mir.ctor_keywords(m["type"])][:4]
+        kw = [["id", {"s": "top"}]]
+        ids = []
+        for m in own:
+            comps = []
+            for k in range(3):
+                i = "%s_%d" % (m["name"], k)
+                ids.append(i)
+                comps.append({"cls": m["type"], "kw": [["id", {"s": i}]]})
+            kw.append([m["name"], {"l": comps}])
+        for misses in (0, 9, 10, 11, 25):
+            steps = [{"op": "lookup", "id": "missing_%d" % j} for j in range(misses)] + [{"op": "lookup", "id": i} for i in ids] \
+                + [{"op": "lookup", "id": "missing_again"}] + [{"op": "lookup", "id": i} for i in reversed(ids)]
+            cases.append({"tree": {"cls": cls, "kw": kw}, "steps": steps, "mark": "saturated:%d" % misses})
+    return cases
+
+
 def make_histories(ck, gen, mir, n):
     """histories on one document / network: look ups interleaved with edits of components that were looked up before"""
     rng = ck.rng
@@ -469,14 +495,25 @@ def idcases(ck, mir, cases, res, label="Cases_C11_id"):
                             "gc_wc_after := %d%%nat; gc_msg := %d%%nat |}" % (supergen.b(is_doc), k, st, lk["wc"], coq_str(i), lk["res"], found,
                                                                               lk["wc_after"], lk["msg"]))
                 meta.append((inp, lk, (k, st)))
-    shard = 100
     from concurrent.futures import ThreadPoolExecutor
+    # shards of at most 100 look ups and ~400 KB of text (the documents dominate), so that the files compile in parallel
+    bounds, start, size, used_now = [], 0, 0, set()
+    for j in range(len(rows)):
+        add = len(rows[j]) + (len(defs[meta[j][2]]) if meta[j][2] not in used_now else 0)
+        if j > start and (j - start >= 100 or size + add > 400000):
+            bounds.append((start, j))
+            start, size, used_now = j, 0, set()
+            add = len(rows[j]) + len(defs[meta[j][2]])
+        used_now.add(meta[j][2])
+        size += add
+    if rows:
+        bounds.append((start, len(rows)))
     texts = []
-    for s in range(0, len(rows), shard):
-        used = sorted(set(m[2] for m in meta[s:s + shard]))
-        texts.append(("%s_%d.v" % (label, s // shard), s, HEADER + "\n".join(defs[u] for u in used) + "\nDefinition cases : list idcase := %s.\n" % coq_list(
-            ["\n " + x for x in rows[s:s + shard]]) + "Eval vm_compute in (id_mismatches true Gen_Members.M 0 cases).\n"))
-    with ThreadPoolExecutor(max_workers=6) as ex:
+    for n_, (s, e) in enumerate(bounds):
+        used = sorted(set(m[2] for m in meta[s:e]))
+        texts.append(("%s_%d.v" % (label, n_), s, HEADER + "\n".join(defs[u] for u in used) + "\nDefinition cases : list idcase := %s.\n" % coq_list(
+            ["\n " + x for x in rows[s:e]]) + "Eval vm_compute in (id_mismatches true Gen_Members.M 0 cases).\n"))
+    with ThreadPoolExecutor(max_workers=8) as ex:
         evals = list(ex.map(lambda f: ck.coq_eval(f[0], f[2], timeout=900), texts))
     for (name, s, _), (ok, results, out) in zip(texts, evals):
         ck.oblige(name + ":evaluates", ok, out[-1500:], kind="correspondence")
@@ -519,7 +556,9 @@ def run(ck):
         ck.oblige("Props_C11.v", False, "instance obligations failed", kind="theorem")
     table_findings(ck, mir, S)
     gen = gdsgen.Gen(T, ck.rng)
-    cases = make_histories(ck, gen, mir, ck.n(30, 300)) + make_idcases(ck, gen, mir, ck.n(16, 200))
+    sat = saturated_histories(mir)
+    ck.extra["saturated_counter_histories"] = len(sat)
+    cases = sat + make_histories(ck, gen, mir, ck.n(30, 300)) + make_idcases(ck, gen, mir, ck.n(16, 200))
     order = {c: T.field_order(c) for c in T.order}
     res = ck.impl("c11_impl.py", {"order": order, "classes": mir.order, "idcases": cases,
                                   "acceptance": {"names": {c: [m["name"] for m in mir.members(c)] for c in mir.order},
